@@ -1,13 +1,16 @@
 package main
 
-// Session plumbing of prepared-statement mode (gorm.go DB.Session, finisher_api.go Begin /
-// Transaction): a handle is derived from a plain or a prepared-mode handle by a list of steps
-// (Session{}, Session{PrepareStmt:true}, Begin or Transaction block), one INSERT is executed
-// through it, and an open transaction is rolled back.  Observed at the recording driver: whether
-// the INSERT ran on a connection inside a transaction, whether it went through a prepared
-// statement; afterwards: whether the row is there.
+// Session / transaction plumbing of prepared-statement mode (gorm.go DB.Session, DB.DB;
+// finisher_api.go Begin / Commit / Rollback / Transaction / SavePoint / RollbackTo / Connection;
+// prepare_stmt.go BeginTx, PreparedStmtTX.Commit/Rollback, GetDBConn, Ping): a handle is derived
+// from a plain or a prepared-mode handle by a list of steps, one or two INSERTs are executed through
+// it, open transactions are finished.  Every program is run twice: as given, and in NON-prepared
+// mode (plain base, Session{PrepareStmt} replaced by Session{}); observed at the recording driver
+// and in the table: did the first INSERT run on a connection inside a transaction, through a
+// prepared statement, which rows are left, how many calls failed.
 
 import (
+	"database/sql"
 	"errors"
 	"fmt"
 	"strings"
@@ -22,25 +25,73 @@ import (
 )
 
 type PlumbIn struct {
-	Base  string   `json:"base"`  // plain | prepared
-	Steps []string `json:"steps"` // sess | sessprep | begin | block | conn
+	Base string `json:"base"` // plain | prepared
+	// sess | sessprep | sessnonest | begin | beginopt | beginfault | block | blockok | blockfault | conn
+	Steps  []string `json:"steps"`
+	Body   string   `json:"body,omitempty"`   // "" = one INSERT | sp = INSERT a; SavePoint; INSERT b; RollbackTo
+	Finish string   `json:"finish,omitempty"` // "" = rollback | commit   (how begin* steps end)
 }
 
-type PlumbObs struct {
+type PlumbRun struct {
 	InTx     bool     `json:"in_tx"`
 	Prepared bool     `json:"prepared"`
 	Survived int      `json:"survived"`
 	Errs     []string `json:"errs,omitempty"`
+	DBOk     bool     `json:"db_ok"` // DB() of the derived handle returned the pool's *sql.DB
+}
+
+type PlumbObs struct {
+	PlumbRun
 	// later uses of the same statement text: non-prepared, fresh prepared-mode session, prepared-mode transaction
 	ReuseErrs []string `json:"reuse_errs,omitempty"`
+	Ref       PlumbRun `json:"reference"`
 }
 
 var markSeq int64 = 1000
 
 var errRollback = errors.New("verif: roll the block back")
+var errBegin = errors.New("verif: injected BEGIN failure")
 
-func (e *env) runPlumb(in PlumbIn) PlumbObs {
-	var o PlumbObs
+const insMark = "INSERT INTO marks (id) VALUES (?)"
+
+// exotic: forms outside the small Coq model (judged against the reference run only)
+func (in PlumbIn) exotic() bool {
+	if in.Body != "" || in.Finish != "" {
+		return true
+	}
+	tx := false
+	for _, s := range in.Steps {
+		switch s {
+		case "beginopt", "beginfault", "blockok", "blockfault", "sessnonest":
+			return true
+		case "begin", "block":
+			if tx {
+				return true
+			}
+			tx = true
+		case "conn":
+			if tx {
+				return true
+			}
+		}
+	}
+	return false
+}
+
+func (in PlumbIn) reference() PlumbIn {
+	r := PlumbIn{Base: "plain", Body: in.Body, Finish: in.Finish}
+	for _, s := range in.Steps {
+		if s == "sessprep" {
+			s = "sess"
+		}
+		r.Steps = append(r.Steps, s)
+	}
+	return r
+}
+
+// runPlumbOnce executes one program on a fresh pair of handles.
+func (e *env) runPlumbOnce(in PlumbIn, reuse *[]string) PlumbRun {
+	var o PlumbRun
 	sqlDB, rec := recdrv.Open(e.dsn)
 	defer sqlDB.Close()
 	db, err := gorm.Open(sqlite.Dialector{Conn: sqlDB}, &gorm.Config{Logger: logger.Discard, PrepareStmt: in.Base == "prepared"})
@@ -51,77 +102,154 @@ func (e *env) runPlumb(in PlumbIn) PlumbObs {
 			o.Errs = append(o.Errs, what+": "+err.Error())
 		}
 	}
-	var walk func(h *gorm.DB, steps []string) error
-	walk = func(h *gorm.DB, steps []string) error {
-		if len(steps) == 0 {
-			rec.Reset()
-			err := h.Exec("INSERT INTO marks (id) VALUES (?)", id).Error
-			fail("insert", err)
-			for _, ev := range rec.Snapshot() {
-				if (ev.Kind == "exec" || ev.Kind == "stmt_exec") && strings.Contains(ev.Query, "INSERT INTO marks") {
-					o.InTx = ev.Tx != 0
-					o.Prepared = ev.Kind == "stmt_exec"
-				}
-			}
-			return nil
+	seenFirst := false
+	insert := func(h *gorm.DB, id int64) {
+		rec.Reset()
+		fail("insert", h.Exec(insMark, id).Error)
+		if seenFirst {
+			return
 		}
+		for _, ev := range rec.Snapshot() {
+			if (ev.Kind == "exec" || ev.Kind == "stmt_exec") && strings.Contains(ev.Query, "INSERT INTO marks") && ev.Err == "" {
+				o.InTx = ev.Tx != 0
+				o.Prepared = ev.Kind == "stmt_exec"
+				seenFirst = true
+			}
+		}
+	}
+	finish := func(tx *gorm.DB) {
+		if in.Finish == "commit" {
+			fail("commit", tx.Commit().Error)
+		} else {
+			fail("rollback", tx.Rollback().Error)
+		}
+	}
+	var walk func(h *gorm.DB, steps []string, inTx bool)
+	walk = func(h *gorm.DB, steps []string, inTx bool) {
+		if len(steps) == 0 {
+			// the handle must know its *sql.DB, and its pool must answer Ping, in both modes
+			// (inside a Connection block DB() reports ErrInvalidDB without the cache, too)
+			if d, err := h.DB(); err == nil && d == sqlDB {
+				o.DBOk = true
+			}
+			if p, ok := h.Statement.ConnPool.(interface{ Ping() error }); ok {
+				fail("ping", p.Ping())
+			}
+			insert(h, id)
+			if in.Body == "sp" {
+				fail("savepoint", h.SavePoint("sp1").Error)
+				insert(h, id+1)
+				fail("rollbackto", h.RollbackTo("sp1").Error)
+			}
+			return
+		}
+		rest := steps[1:]
 		switch steps[0] {
 		case "sess":
-			return walk(h.Session(&gorm.Session{}), steps[1:])
+			walk(h.Session(&gorm.Session{}), rest, inTx)
 		case "sessprep":
-			return walk(h.Session(&gorm.Session{PrepareStmt: true}), steps[1:])
-		case "begin":
-			tx := h.Begin()
-			fail("begin", tx.Error)
-			walk(tx, steps[1:])
-			fail("rollback", tx.Rollback().Error)
-			return nil
-		case "conn":
-			fail("connection", h.Connection(func(tx *gorm.DB) error {
-				walk(tx, steps[1:])
+			walk(h.Session(&gorm.Session{PrepareStmt: true}), rest, inTx)
+		case "sessnonest":
+			walk(h.Session(&gorm.Session{DisableNestedTransaction: true}), rest, inTx)
+		case "blockfault":
+			rec.Fault = func(idx int, ev *recdrv.Event) error {
+				if ev.Kind == "begin" {
+					return errBegin
+				}
 				return nil
-			}))
-			return nil
-		case "block":
+			}
+			called := false
 			err := h.Transaction(func(tx *gorm.DB) error {
-				walk(tx, steps[1:])
-				return errRollback
+				called = true
+				rec.Fault = nil
+				walk(tx, rest, true)
+				return nil
 			})
-			if !errors.Is(err, errRollback) {
+			rec.Fault = nil
+			if !inTx && (err == nil || called) {
+				fail("transaction", fmt.Errorf("BEGIN failed but the block ran (%v, %v)", called, err))
+			}
+			if err != nil {
+				fail("transaction", err)
+			}
+		case "begin", "beginopt", "beginfault":
+			var tx *gorm.DB
+			switch steps[0] {
+			case "beginopt":
+				tx = h.Begin(&sql.TxOptions{Isolation: sql.LevelDefault})
+			case "beginfault":
+				rec.Fault = func(idx int, ev *recdrv.Event) error {
+					if ev.Kind == "begin" {
+						return errBegin
+					}
+					return nil
+				}
+				tx = h.Begin()
+				rec.Fault = nil
+			default:
+				tx = h.Begin()
+			}
+			fail("begin", tx.Error)
+			walk(tx, rest, true)
+			finish(tx)
+		case "block", "blockok":
+			ret := errRollback
+			if steps[0] == "blockok" {
+				ret = nil
+			}
+			err := h.Transaction(func(tx *gorm.DB) error {
+				walk(tx, rest, true)
+				return ret
+			})
+			if !errors.Is(err, ret) {
 				fail("transaction", fmt.Errorf("unexpected result %v", err))
 			}
-			return nil
-		}
-		return nil
-	}
-	walk(db, in.Steps)
-	var n int64
-	fail("count", db.Raw("SELECT count(*) FROM marks WHERE id = ?", id).Scan(&n).Error)
-	o.Survived = int(n)
-	// the same text again: without the cache, from a fresh prepared-mode session, and inside a
-	// prepared-mode transaction -- all three must work alike
-	reuse := func(what string, err error) {
-		if err != nil {
-			o.ReuseErrs = append(o.ReuseErrs, what+": "+err.Error())
+		case "conn":
+			fail("connection", h.Connection(func(tx *gorm.DB) error {
+				walk(tx, rest, false)
+				return nil
+			}))
 		}
 	}
+	walk(db, in.Steps, false)
 	plain, err := gorm.Open(sqlite.Dialector{Conn: sqlDB}, &gorm.Config{Logger: logger.Discard})
 	lib.Must(err)
-	const ins = "INSERT INTO marks (id) VALUES (?)"
-	reuse("non-prepared", plain.Exec(ins, id+1).Error)
-	reuse("prepared session", db.Session(&gorm.Session{PrepareStmt: true}).Exec(ins, id+2).Error)
-	ptx := db.Session(&gorm.Session{PrepareStmt: true}).Begin()
-	reuse("prepared transaction: begin", ptx.Error)
-	reuse("prepared transaction", ptx.Exec(ins, id+3).Error)
-	reuse("prepared transaction: rollback", ptx.Rollback().Error)
+	var n int64
+	fail("count", plain.Raw("SELECT count(*) FROM marks WHERE id IN (?, ?)", id, id+1).Scan(&n).Error)
+	o.Survived = int(n)
+	if reuse != nil {
+		// the same text again: without the cache, from a fresh prepared-mode session, and inside a
+		// prepared-mode transaction -- all three must work alike
+		again := func(what string, err error) {
+			if err != nil {
+				*reuse = append(*reuse, what+": "+err.Error())
+			}
+		}
+		again("non-prepared", plain.Exec(insMark, id+2).Error)
+		again("prepared session", db.Session(&gorm.Session{PrepareStmt: true}).Exec(insMark, id+3).Error)
+		ptx := db.Session(&gorm.Session{PrepareStmt: true}).Begin()
+		again("prepared transaction: begin", ptx.Error)
+		again("prepared transaction", ptx.Exec(insMark, id+4).Error)
+		again("prepared transaction: rollback", ptx.Rollback().Error)
+	}
 	fail("cleanup", plain.Exec("DELETE FROM marks WHERE id BETWEEN ? AND ?", id, id+9).Error)
+	return o
+}
+
+func (e *env) runPlumb(in PlumbIn) PlumbObs {
+	var o PlumbObs
+	o.PlumbRun = e.runPlumbOnce(in, &o.ReuseErrs)
+	o.Ref = e.runPlumbOnce(in.reference(), nil)
+	if o.Ref.DBOk && !o.DBOk {
+		o.Errs = append(o.Errs, "DB(): the handle knows its *sql.DB without the cache but not with it")
+	}
 	return o
 }
 
 func gPlumb(in PlumbIn, o PlumbObs) string {
 	steps := lib.ListOf(in.Steps, func(s string) string {
 		switch s {
-		case "sess":
+		case "sess", "sessnonest":
 			return "PSess"
 		case "sessprep":
 			return "PSessPrep"
@@ -131,11 +259,12 @@ func gPlumb(in PlumbIn, o PlumbObs) string {
 		return "PBegin"
 	})
 	return lib.App("mk_plumb", lib.Bool(in.Base == "prepared"), steps, lib.Bool(o.InTx), lib.Bool(o.Prepared),
-		lib.Nat(o.Survived), lib.Nat(len(o.Errs)), lib.Nat(len(o.ReuseErrs)))
+		lib.Nat(o.Survived), lib.Nat(len(o.Errs)), lib.Nat(len(o.ReuseErrs)),
+		lib.Bool(o.Ref.InTx), lib.Nat(o.Ref.Survived), lib.Nat(len(o.Ref.Errs)), lib.Bool(in.exotic()))
 }
 
-// allPlumb enumerates every step list of length <= maxLen with at most one begin/block and at
-// most one Connection block (not inside a transaction).
+// allPlumb enumerates every step list of length <= maxLen over the small vocabulary, with at most
+// one begin/block and at most one Connection block (not inside a transaction): the modelled forms.
 func allPlumb(maxLen int) []PlumbIn {
 	var out []PlumbIn
 	var rec func(prefix []string, hasTx, hasConn bool)
@@ -155,5 +284,60 @@ func allPlumb(maxLen int) []PlumbIn {
 		}
 	}
 	rec(nil, false, false)
+	return out
+}
+
+// exoticPlumb: every step list of length <= maxLen over the full vocabulary that is NOT one of the
+// modelled forms, in prepared mode (prepared base, or a Session{PrepareStmt} somewhere), with both
+// ways of finishing and, inside a transaction, the save-point body.
+func exoticPlumb(maxLen int) []PlumbIn {
+	vocab := []string{"sess", "sessprep", "sessnonest", "begin", "beginopt", "beginfault", "block", "blockok", "blockfault", "conn"}
+	var out []PlumbIn
+	var rec func(prefix []string)
+	rec = func(prefix []string) {
+		if len(prefix) > 0 {
+			inTx, hasPrep, hasBegin := false, false, false
+			for _, s := range prefix {
+				switch s {
+				case "begin", "beginopt", "beginfault":
+					hasBegin = true
+					inTx = s != "beginfault"
+				case "block", "blockok":
+					inTx = true
+				case "conn":
+					inTx = false
+				case "sessprep":
+					hasPrep = true
+				}
+			}
+			bases := []string{"prepared"}
+			if hasPrep {
+				bases = append(bases, "plain")
+			}
+			for _, b := range bases {
+				for _, fin := range []string{"", "commit"} {
+					if fin == "commit" && !hasBegin {
+						continue
+					}
+					for _, body := range []string{"", "sp"} {
+						if body == "sp" && !inTx {
+							continue
+						}
+						in := PlumbIn{Base: b, Steps: append([]string{}, prefix...), Body: body, Finish: fin}
+						if in.exotic() {
+							out = append(out, in)
+						}
+					}
+				}
+			}
+		}
+		if len(prefix) == maxLen {
+			return
+		}
+		for _, s := range vocab {
+			rec(append(append([]string{}, prefix...), s))
+		}
+	}
+	rec(nil)
 	return out
 }
